@@ -518,7 +518,8 @@ func isHasPredicate(c *Ctx, f *ssa.Function) bool {
 				for _, fld := range []string{"Next", "Matcher"} {
 					bx, okx := fieldOf(bo.X, fld)
 					by, oky := fieldOf(bo.Y, fld)
-					if okx && oky && (by == ssa.Value(f.Params[1]) || bx == ssa.Value(f.Params[1])) {
+					// one side is the candidate transition, the other an element of the receiver's list
+					if okx && oky && ((by == ssa.Value(f.Params[1])) != (bx == ssa.Value(f.Params[1]))) {
 						if fld == "Next" {
 							eqNext = true
 						} else {
